@@ -490,125 +490,132 @@ class Context:
         # Constants
         math_obj.set("PI", math.pi)
         math_obj.set("E", math.e)
-        math_obj.set("LN2", math.log(2))
-        math_obj.set("LN10", math.log(10))
-        math_obj.set("LOG2E", 1 / math.log(2))
-        math_obj.set("LOG10E", 1 / math.log(10))
-        math_obj.set("SQRT2", math.sqrt(2))
-        math_obj.set("SQRT1_2", math.sqrt(0.5))
+        math_obj.set("LN2", 0.6931471805599453)
+        math_obj.set("LN10", 2.302585092994046)
+        math_obj.set("LOG2E", 1.4426950408889634)
+        math_obj.set("LOG10E", 0.4342944819032518)
+        math_obj.set("SQRT2", 1.4142135623730951)
+        math_obj.set("SQRT1_2", 0.7071067811865476)
 
         # Basic functions
+        nan = float("nan")
+        inf = float("inf")
+
+        def num(args, i=0):
+            return to_number(args[i]) if len(args) > i else nan
+
+        def integral(x, rounded):
+            """Result of floor/ceil/round/trunc: an int where possible, keeping -0, NaN, infinities."""
+            if isinstance(x, float) and (math.isnan(x) or math.isinf(x)):
+                return x
+            value = rounded(x)
+            if value == 0 and math.copysign(1, x) < 0:
+                return -0.0
+            return norm_number(value)
+
+        def guarded(fn, x, overflow=inf):
+            """A host math function with ECMAScript's answers where the host raises."""
+            try:
+                return fn(x)
+            except OverflowError:
+                return overflow
+            except ValueError:
+                return nan
+
         def abs_fn(*args):
-            x = to_number(args[0]) if args else float("nan")
-            return abs(x)
+            return abs(num(args))
 
         def floor_fn(*args):
-            x = to_number(args[0]) if args else float("nan")
-            return math.floor(x)
+            return integral(num(args), math.floor)
 
         def ceil_fn(*args):
-            x = to_number(args[0]) if args else float("nan")
-            return math.ceil(x)
+            return integral(num(args), math.ceil)
 
         def round_fn(*args):
-            x = to_number(args[0]) if args else float("nan")
-            # JavaScript-style round (round half towards positive infinity)
-            return math.floor(x + 0.5)
+            # Round half towards positive infinity, without the x + 0.5 rounding error
+            def half_up(x):
+                low = math.floor(x)
+                return low + 1 if x - low >= 0.5 else low
+
+            return integral(num(args), half_up)
 
         def trunc_fn(*args):
-            x = to_number(args[0]) if args else float("nan")
-            return math.trunc(x)
+            return integral(num(args), math.trunc)
 
         def min_fn(*args):
-            if not args:
-                return float("inf")
             nums = [to_number(a) for a in args]
-            return min(nums)
+            if any(isinstance(n, float) and math.isnan(n) for n in nums):
+                return nan
+            # -0 is smaller than +0
+            return min(nums, key=lambda n: (n, math.copysign(1, n)), default=inf)
 
         def max_fn(*args):
-            if not args:
-                return float("-inf")
             nums = [to_number(a) for a in args]
-            return max(nums)
+            if any(isinstance(n, float) and math.isnan(n) for n in nums):
+                return nan
+            return max(nums, key=lambda n: (n, math.copysign(1, n)), default=-inf)
 
         def pow_fn(*args):
-            x = to_number(args[0]) if args else float("nan")
-            y = to_number(args[1]) if len(args) > 1 else float("nan")
-            return js_pow(x, y)
+            return js_pow(num(args, 0), num(args, 1))
 
         def sqrt_fn(*args):
-            x = to_number(args[0]) if args else float("nan")
+            x = num(args)
             if x < 0:
-                return float("nan")
+                return nan
             return math.sqrt(x)
 
         def sin_fn(*args):
-            x = to_number(args[0]) if args else float("nan")
-            return math.sin(x)
+            return guarded(math.sin, num(args))
 
         def cos_fn(*args):
-            x = to_number(args[0]) if args else float("nan")
-            return math.cos(x)
+            return guarded(math.cos, num(args))
 
         def tan_fn(*args):
-            x = to_number(args[0]) if args else float("nan")
-            return math.tan(x)
+            return guarded(math.tan, num(args))
 
         def asin_fn(*args):
-            x = to_number(args[0]) if args else float("nan")
-            if x < -1 or x > 1:
-                return float("nan")
-            return math.asin(x)
+            return guarded(math.asin, num(args))
 
         def acos_fn(*args):
-            x = to_number(args[0]) if args else float("nan")
-            if x < -1 or x > 1:
-                return float("nan")
-            return math.acos(x)
+            return guarded(math.acos, num(args))
 
         def atan_fn(*args):
-            x = to_number(args[0]) if args else float("nan")
-            return math.atan(x)
+            return math.atan(num(args))
 
         def atan2_fn(*args):
-            y = to_number(args[0]) if args else float("nan")
-            x = to_number(args[1]) if len(args) > 1 else float("nan")
-            return math.atan2(y, x)
+            return math.atan2(num(args, 0), num(args, 1))
 
         def log_fn(*args):
-            x = to_number(args[0]) if args else float("nan")
-            if x <= 0:
-                return float("-inf") if x == 0 else float("nan")
-            return math.log(x)
+            x = num(args)
+            if x == 0:
+                return -inf
+            return guarded(math.log, x)
 
         def exp_fn(*args):
-            x = to_number(args[0]) if args else float("nan")
-            return math.exp(x)
+            return guarded(math.exp, num(args))
 
         def random_fn(*args):
             return random.random()
 
         def sign_fn(*args):
-            x = to_number(args[0]) if args else float("nan")
-            if math.isnan(x):
-                return float("nan")
+            x = num(args)
             if x > 0:
                 return 1
             if x < 0:
                 return -1
-            return 0
+            return x  # NaN, +0 and -0 are returned as they are
+
+        def to_int32(value):
+            n = to_number(value)
+            if isinstance(n, float) and (math.isnan(n) or math.isinf(n)):
+                return 0
+            n = int(n) & 0xFFFFFFFF
+            return n - 0x100000000 if n >= 0x80000000 else n
 
         def imul_fn(*args):
             # 32-bit integer multiplication
-            a = int(to_number(args[0])) if args else 0
-            b = int(to_number(args[1])) if len(args) > 1 else 0
-            # Convert to 32-bit signed integers
-            a = a & 0xFFFFFFFF
-            b = b & 0xFFFFFFFF
-            if a >= 0x80000000:
-                a -= 0x100000000
-            if b >= 0x80000000:
-                b -= 0x100000000
+            a = to_int32(args[0]) if args else 0
+            b = to_int32(args[1]) if len(args) > 1 else 0
             result = (a * b) & 0xFFFFFFFF
             if result >= 0x80000000:
                 result -= 0x100000000
@@ -618,50 +625,49 @@ class Context:
             # Convert to 32-bit float
             import struct
 
-            x = to_number(args[0]) if args else float("nan")
-            # Pack as 32-bit float and unpack as 64-bit
-            packed = struct.pack("f", x)
-            return struct.unpack("f", packed)[0]
+            x = num(args)
+            try:
+                return struct.unpack("f", struct.pack("f", x))[0]
+            except OverflowError:
+                return math.copysign(inf, x)
 
         def clz32_fn(*args):
             # Count leading zeros in 32-bit integer
-            x = int(to_number(args[0])) if args else 0
-            x = x & 0xFFFFFFFF
-            if x == 0:
-                return 32
-            count = 0
-            while (x & 0x80000000) == 0:
-                count += 1
-                x <<= 1
-            return count
+            x = (to_int32(args[0]) if args else 0) & 0xFFFFFFFF
+            return 32 - x.bit_length()
 
         def hypot_fn(*args):
-            if not args:
-                return 0
-            nums = [to_number(a) for a in args]
-            return math.hypot(*nums)
+            nums = [float(to_number(a)) for a in args]
+            if any(math.isinf(n) for n in nums):
+                return inf
+            return math.hypot(*nums) if nums else 0
 
         def cbrt_fn(*args):
-            x = to_number(args[0]) if args else float("nan")
-            if x < 0:
-                return -((-x) ** (1 / 3))
-            return x ** (1 / 3)
+            x = num(args)
+            if isinstance(x, float) and (math.isnan(x) or math.isinf(x)):
+                return x
+            return math.cbrt(x)
 
         def log2_fn(*args):
-            x = to_number(args[0]) if args else float("nan")
-            return math.log2(x) if x > 0 else float("nan")
+            x = num(args)
+            if x == 0:
+                return -inf
+            return guarded(math.log2, x)
 
         def log10_fn(*args):
-            x = to_number(args[0]) if args else float("nan")
-            return math.log10(x) if x > 0 else float("nan")
+            x = num(args)
+            if x == 0:
+                return -inf
+            return guarded(math.log10, x)
 
         def expm1_fn(*args):
-            x = to_number(args[0]) if args else float("nan")
-            return math.expm1(x)
+            return guarded(math.expm1, num(args))
 
         def log1p_fn(*args):
-            x = to_number(args[0]) if args else float("nan")
-            return math.log1p(x) if x > -1 else float("nan")
+            x = num(args)
+            if x == -1:
+                return -inf
+            return guarded(math.log1p, x)
 
         # Set all methods
         math_obj.set("abs", abs_fn)
